@@ -6,7 +6,8 @@ rebuilds whenever anything changed.  Scratch directories live outside /repo and 
 import hashlib, json, os, shutil, subprocess, sys, tempfile, fcntl, time
 from concurrent.futures import ThreadPoolExecutor
 
-VERIF = os.path.dirname(os.path.dirname(os.path.abspath(__file__)))
+# (NSA_VERIF_HOME: tools/matrix.py runs the checks from a snapshot of nsa/ while sharing the cache and the irfacts binary of the checkout)
+VERIF = os.environ.get('NSA_VERIF_HOME') or os.path.dirname(os.path.dirname(os.path.abspath(__file__)))
 REPO = os.environ.get('NSA_REPO', '/repo')
 CACHE = os.path.join(VERIF, '.cache', 'ir')
 IRFACTS = os.path.join(VERIF, 'tools', 'irfacts')
